@@ -42,7 +42,7 @@ pub fn sent_so_far() -> u64 {
 
 pub static SCHED: Lazy<(Mutex<State>, Condvar)> = Lazy::new(|| (Mutex::new(State::default()), Condvar::new()));
 
-const STEP_TIMEOUT: Duration = Duration::from_millis(10000);
+const STEP_TIMEOUT: Duration = Duration::from_millis(3000);
 
 pub fn install() {
     similari::verif::set_hook(Some(Arc::new(|site: &'static str, arg: u64| {
